@@ -6,6 +6,7 @@ import (
 	"io"
 	"sort"
 	"strings"
+	"time"
 
 	"golang.org/x/tools/go/ssa"
 
@@ -121,6 +122,8 @@ type Config struct {
 	InlineGo    bool
 	Verbose     bool
 	MaxViolationsPerSig int
+	MaxWall     time.Duration // exploration budget per harness (0 = none); exceeding it is reported as inconclusive
+	Progress    bool
 }
 
 type Engine struct {
@@ -141,6 +144,10 @@ type Engine struct {
 	strIntern map[string]int
 	typeIDs map[string]int
 	Params map[string]int
+	NoSlice bool
+	QSites  map[string]int
+	deadline time.Time
+	lastProg time.Time
 }
 
 func NewEngine(prog *ssa.Program, solver *smt.Solver, cfg Config) *Engine {
@@ -218,9 +225,59 @@ func (e *Engine) feasible(st *State, extra *smt.Term) smt.Result {
 	if extra.IsFalse() {
 		return smt.Unsat
 	}
-	as := append(append([]*smt.Term{}, st.pc...), extra)
-	r, _, _ := e.S.Check(as, nil)
+	as := append(e.relevant(st.pc, extra), extra)
+	r, _, used := e.S.Check(as, nil)
+	if e.QSites != nil && used != "cache" && len(st.frames) > 0 {
+		e.QSites[e.siteIn(st)]++
+	}
 	return r
+}
+
+// relevant returns the conjuncts of pc that (transitively) share a variable with q. The rest of the
+// path condition is satisfiable on its own (a live path is feasible) and independent of q, so
+// pc ∧ q is satisfiable iff relevant(pc,q) ∧ q is. Smaller scripts, and far more cache hits.
+func (e *Engine) relevant(pc []*smt.Term, q *smt.Term) []*smt.Term {
+	if e.NoSlice {
+		return append([]*smt.Term{}, pc...)
+	}
+	rel := map[int32]bool{}
+	for _, v := range e.C.VarSet(q) {
+		rel[v] = true
+	}
+	if len(rel) == 0 {
+		return nil
+	}
+	taken := make([]bool, len(pc))
+	var out []*smt.Term
+	for changed := true; changed; {
+		changed = false
+		for i, c := range pc {
+			if taken[i] {
+				continue
+			}
+			vs := e.C.VarSet(c)
+			hit := false
+			for _, v := range vs {
+				if rel[v] {
+					hit = true
+					break
+				}
+			}
+			if hit {
+				taken[i] = true
+				changed = true
+				for _, v := range vs {
+					rel[v] = true
+				}
+			}
+		}
+	}
+	for i, c := range pc {
+		if taken[i] {
+			out = append(out, c)
+		}
+	}
+	return out
 }
 
 // branch decides a boolean condition on the current path, forking when both sides are
